@@ -9,7 +9,7 @@ from scipy.linalg import norm
 # Local Imports
 from ..bodies import Earth
 from ..constants import PI, RAD2DEG, TWOPI
-from ..maths import fpe_equals, safeArccos, wrapAngle2Pi
+from ..maths import fpe_equals, safeArccos
 from . import (
     EccentricityError,
     InclinationError,
@@ -17,6 +17,7 @@ from . import (
     isEccentric,
     isInclined,
     wrap_anomaly,
+    wrapAngleHalfOpen,
 )
 
 # ruff: noqa: N806
@@ -378,21 +379,21 @@ def singularityCheck(
     inclined = isInclined(inc)
     eccentric = isEccentric(ecc)
     if inclined and eccentric:
-        return wrapAngle2Pi(raan), wrapAngle2Pi(argp), wrapAngle2Pi(anomaly)
+        return wrapAngleHalfOpen(raan), wrapAngleHalfOpen(argp), wrapAngleHalfOpen(anomaly)
 
     if not inclined and eccentric:
         # RAAN, Ω, is undefined
-        true_long_rp = wrapAngle2Pi(raan + argp)
-        return 0.0, true_long_rp, wrapAngle2Pi(anomaly)
+        true_long_rp = wrapAngleHalfOpen(raan + argp)
+        return 0.0, true_long_rp, wrapAngleHalfOpen(anomaly)
 
     if inclined and not eccentric:
         # Arg. Perigee, ω, is undefined
-        arg_lat = wrapAngle2Pi(anomaly + argp)
-        return wrapAngle2Pi(raan), 0.0, arg_lat
+        arg_lat = wrapAngleHalfOpen(anomaly + argp)
+        return wrapAngleHalfOpen(raan), 0.0, arg_lat
 
     # else; Circular and Equatorial
     # RAAN, Ω, and Arg. Perigee, ω, are undefined
-    true_long = wrapAngle2Pi(anomaly + argp + raan)
+    true_long = wrapAngleHalfOpen(anomaly + raan + argp)
     return 0.0, 0.0, true_long
 
 
